@@ -40,19 +40,19 @@ theorem frame0_ben (km : KindMap) (g : Graph) (hok : GraphOK2 km g) (ak rk bk : 
   | false =>
     simp only [Bool.false_eq_true, if_false]
     have hfrom := hop_from_ben km g "n0" "n1" _ _ (pA0 ak) (pB0 bk) (by decide) (by decide) (by decide) honA honB
-    have := hop_frame_ben km g (hopTriples g (pA0 ak) (pB0 bk)) (fun t => [eB km t.1.1, nB "n0" km t.1.2, nB "n1" km t.2])
+    have := hop_frame_ben km g true true true (hopTriples g (pA0 ak) (pB0 bk)) (fun t => [eB km t.1.1, nB "n0" km t.1.2, nB "n1" km t.2])
       (fun t => t.1.1) (fun t => t.1.2) (fun t => t.2) _ hfrom
       (fun t _ => ⟨by simp [findBinding, eB], by simp [findBinding, eB, nB], by simp [findBinding, eB, nB]⟩)
       _ (fun t => wR0 rk t.1.1) (fun t ht => hwh _ t.1.1 (hopTriples_mem g _ _ t ht) (by simp [findBinding, eB]))
-    simpa [List.map_map, Function.comp_def, rowOf, E0, Ec] using this
+    simpa [List.map_map, Function.comp_def, rowOf, E0, Ec, S2.frameProj, keptCols, keptVals] using this
   | true =>
     simp only [if_true]
     have hfrom := hop_from_ben km g "n1" "n0" _ _ (pB0 bk) (pA0 ak) (by decide) (by decide) (by decide) honB honA
-    have := hop_frame_ben km g (hopTriples g (pB0 bk) (pA0 ak)) (fun t => [eB km t.1.1, nB "n1" km t.1.2, nB "n0" km t.2])
+    have := hop_frame_ben km g true true true (hopTriples g (pB0 bk) (pA0 ak)) (fun t => [eB km t.1.1, nB "n1" km t.1.2, nB "n0" km t.2])
       (fun t => t.1.1) (fun t => t.2) (fun t => t.1.2) _ hfrom
       (fun t _ => ⟨by simp [findBinding, eB], by simp [findBinding, eB, nB], by simp [findBinding, eB, nB]⟩)
       _ (fun t => wR0 rk t.1.1) (fun t ht => hwh _ t.1.1 (hopTriples_mem g _ _ t ht) (by simp [findBinding, eB]))
-    simpa [List.map_map, Function.comp_def, rowOf, E0, Ec] using this
+    simpa [List.map_map, Function.comp_def, rowOf, E0, Ec, S2.frameProj, keptCols, keptVals] using this
 
 theorem m1Sql_shape (g : Graph) (ak rk bk : List String) (flip : Bool) (c : Chain) (h : c ∈ m1Sql g ak rk bk flip) :
     ∃ x0 y0 y1, c = ⟨[x0], [y0, y1]⟩ := by
